@@ -93,11 +93,15 @@ func gapStage(c *core.Check, chk func(string, map[string]any) bool) {
 	if c.Tier == "thorough" {
 		cfgs = []map[string]string{{"MaxK": "1", "BaseMode": "\"mid\"", "MaxPos": "15"}, {"MaxK": "2", "BaseMode": "\"few\"", "MaxPos": "9"}}
 	}
+	// every subset of up to 4 blanks removed from a fully spaced rendering of the token-fusion-prone forms
+	// (legacy indexes, attribute access on numbers, unary minus chains, namespaced calls)
+	cfgs = append(cfgs, map[string]string{"MaxK": "4", "BaseMode": "\"spaced\"", "MaxPos": "9"})
 	c.Extra["gap_constants"] = cfgs
 	for _, consts := range cfgs {
 		streamTLC(c, core.TLCRun{Module: "MC_Gap", Parts: 4, Consts: consts, Timeout: minutes(30), KeepVars: []string{"e", "gaps"}}, func(st core.State) {
 			v := gap.Decode(st)
-			if len(v.Edits) == 0 {
+			v.Spaced = consts["BaseMode"] == "\"spaced\""
+			if len(v.Edits) == 0 && !v.Spaced {
 				return
 			}
 			c.Count("vectors_replayed", 1)
